@@ -125,7 +125,8 @@ def run(ctx):
     for a in acc:
         if a["kind"] == "assign":
             # increment only after the data was written: dominated by the inner write calls
-            ok = all(wf.dominates(s.bb, a["bb"]) or not typestate_emits_write(prog, s.term.callee_path()) for s in inner)
+            wbbs = set(s.bb for s in inner if typestate_emits_write(prog, s.term.callee_path()))
+            ok, _w = wf.must_pass(0, [a["bb"]], lambda n: n[0] == "b" and n[1] in wbbs)
             # and leads to Ok(true)
             if ok:
                 r2.ok("BlockWriter::write cursor advanced after the data", "", loc(a["sp"]))
